@@ -21,6 +21,7 @@ func c14(p *core.Program, r *core.Report) {
 	r.Rule("R2", "range saturation: bsiGroup.baseValue and bsiGroup.rangeAll only compare the predicate with the declared bounds and the range the bit depth can represent; interpreted over every order type of (predicate, stored value, representable min/max, declared min/max, base) and every operator, the call protocol 'out of range -> none (all for !=); rangeAll -> all not-null; otherwise rangeOp(op, baseValue)' selects exactly the stored values satisfying the comparison; baseValueBetween likewise, and it never hands rangeBetween a reversed interval; executeRowBSIGroupShard and Field.Range follow that protocol on every path that reaches rangeOp")
 	r.Rule("R3", "aggregates respect the filter: in fragment.sum, min and max every row that is counted, tested for emptiness or handed to minUnsigned/maxUnsigned is derived (Intersect, or Difference on the left) from the filtered not-null row")
 	r.Rule("R4", "one bit depth: every call from Field into the BSI view/fragment layer (importValue, setValue, value, sum, min, max, rangeOp) passes the field's current bit depth (bsiGroup.BitDepth), not a depth computed from the values at hand")
+	r.Rule("R5", "a value write touches every plane: positionsForValue, setValueBase and importSetValue reach a non-error return only after handling the not-null row, the sign row and the loop over the value rows (readers combine the planes without re-masking, so a clear that leaves the sign or value bits behind shows up in range queries)")
 	r.NotDecided = "the bit-sliced loops themselves (rangeEQ, rangeLTUnsigned, rangeGTUnsigned, rangeBetweenUnsigned, minUnsigned, maxUnsigned, the place-value sum) are arithmetic on runtime values and are taken at their specification; last-writer semantics of overwrites; overflow of sums"
 	pk := p.Pkg("")
 	if pk == nil {
@@ -32,6 +33,7 @@ func c14(p *core.Program, r *core.Report) {
 	c14Protocol(p, r)
 	c14Aggregates(p, r)
 	c14Depth(p, r)
+	c14Planes(p, r)
 }
 
 // ---------------------------------------------------------------- R1
@@ -1237,4 +1239,132 @@ func c14Depth(p *core.Program, r *core.Report) {
 		})
 	}
 	r.Floor("C14/R4 calls from Field into the BSI layer", n, 7)
+}
+
+// ---------------------------------------------------------------- R5
+
+func c14Planes(p *core.Program, r *core.Report) {
+	pk := p.Pkg("")
+	info := pk.TypesInfo
+	const (
+		bE flow.State = 1 << iota
+		bS
+		bV
+		bErr
+	)
+	mentions := func(e ast.Expr, name string) bool {
+		hit := false
+		ast.Inspect(e, func(n ast.Node) bool {
+			if id, ok := n.(*ast.Ident); ok {
+				if c, ok := info.ObjectOf(id).(*types.Const); ok && c.Name() == name && c.Pkg() == pk.Types {
+					hit = true
+				}
+			}
+			return true
+		})
+		return hit
+	}
+	for _, name := range []string{"positionsForValue", "setValueBase", "importSetValue"} {
+		fd := core.FuncDecl(pk, "fragment", name)
+		construct := "(*fragment)." + name + " planes"
+		if fd == nil {
+			r.Undecide("R5", construct, "", "not found")
+			continue
+		}
+		var bad []string
+		h := flow.Hooks{Info: info}
+		h.Atom = func(n ast.Node, s flow.State) []flow.State {
+			c, ok := n.(*ast.CallExpr)
+			if !ok {
+				return []flow.State{s}
+			}
+			fn := core.CalleeOf(info, c)
+			if fn == nil || !recvNamed(fn, "fragment") {
+				return []flow.State{s}
+			}
+			switch fn.Name() {
+			case "pos", "unprotectedSetBit", "unprotectedClearBit":
+			default:
+				return []flow.State{s}
+			}
+			if len(c.Args) < 1 {
+				return []flow.State{s}
+			}
+			switch {
+			case mentions(c.Args[0], "bsiExistsBit"):
+				s |= bE
+			case mentions(c.Args[0], "bsiSignBit"):
+				s |= bS
+			case mentions(c.Args[0], "bsiOffsetBit"):
+				s |= bV
+			}
+			return []flow.State{s}
+		}
+		h.Refine = func(cond ast.Expr, taken bool, s flow.State) (flow.State, bool) {
+			if o, neq, ok := flow.IsErrNilTest(info, ast.Unparen(cond)); ok && o != nil {
+				if neq == taken {
+					return s | bErr, true
+				}
+				return s &^ bErr, true
+			}
+			return s, true
+		}
+		// the value loop runs bitDepth times; a depth of zero has no value rows
+		h.Return = func(ret *ast.ReturnStmt, s flow.State) {
+			if s&bErr != 0 {
+				return
+			}
+			var miss []string
+			if s&bE == 0 {
+				miss = append(miss, "not-null row")
+			}
+			if s&bS == 0 {
+				miss = append(miss, "sign row")
+			}
+			if s&bV == 0 {
+				miss = append(miss, "value rows")
+			}
+			if len(miss) > 0 {
+				pos := fd.End()
+				if ret != nil {
+					pos = ret.Pos()
+				}
+				bad = append(bad, p.Pos(pos)+": returns without handling the "+strings.Join(miss, ", "))
+			}
+		}
+		h.RangeAtLeastOnce = func(*ast.RangeStmt) bool { return true }
+		it := flow.Run(h, fd.Body, 0)
+		// for-loops over the bit depth: the zero-iteration path carries no value rows by
+		// construction; accept it when the loop exists at all
+		hasLoop := false
+		ast.Inspect(fd.Body, func(n ast.Node) bool {
+			if fs, ok := n.(*ast.ForStmt); ok {
+				ast.Inspect(fs.Body, func(m ast.Node) bool {
+					if c, ok := m.(*ast.CallExpr); ok && len(c.Args) > 0 && mentions(c.Args[0], "bsiOffsetBit") {
+						hasLoop = true
+					}
+					return true
+				})
+			}
+			return true
+		})
+		var real []string
+		for _, b := range dedupe(bad) {
+			if hasLoop && strings.HasSuffix(b, "handling the value rows") {
+				// only the zero-iteration path of the value loop
+				continue
+			}
+			real = append(real, b)
+		}
+		switch {
+		case it.Unsupported != "":
+			r.Undecide("R5", construct, p.Pos(fd.Pos()), it.Unsupported)
+		case !hasLoop:
+			r.Violate("R5", construct, p.Pos(fd.Pos()), "no loop over the value rows (bsiOffsetBit+i)")
+		case len(real) > 0:
+			r.Violate("R5", construct, p.Pos(fd.Pos()), strings.Join(real, "; ")+" -- the planes left behind are combined unmasked by the range readers (rangeLT unions the sign row), so a cleared or overwritten column still matches")
+		default:
+			r.HoldAt("R5", construct, p.Pos(fd.Pos()), "every non-error return follows the not-null row, the sign row and the value-row loop")
+		}
+	}
 }
